@@ -14,6 +14,7 @@ unshare -m bash -c "mount --bind $S/repo /repo && mount --bind $S/verif /verif &
 rc=$(cat $S/verif/.work/seed.rc)
 mkdir -p /verif/.work/seedres
 cp $S/verif/.work/seed.out /verif/.work/seedres/$name.$prop.out
+cp $S/verif/.work/last_${prop}_violations.json /verif/.work/seedres/$name.$prop.violations.json 2>/dev/null
 echo "seed=$name property=$prop tier=$tier exit=$rc violations=$(grep -c '^VIOLATION' $S/verif/.work/seed.out)"
 grep -A1 '^VIOLATION' $S/verif/.work/seed.out | grep -v '^--' | grep -v '^VIOLATION' | head -5
 rm -rf $S
